@@ -13,12 +13,17 @@ Property theorems (all n, all thread counts p ≥ 1, any strict weak order, both
   * `merge_back_all_schedules`         — between two barriers: threads with disjoint write windows reading only
                                          the temporaries commute, every interleaving gives the same range
   * `temporaries_ledger_balanced`      — n objects constructed in raw storage, n destroyed
+  * `model_refines_spec`               — END TO END: the executed model `pmsort` returns the stable sort, adjacent
+                                         merge windows, balanced ledger — all n, threads ≥ 1, both splittings;
+                                         no assumption about multisequence_partition (C08 refinement_correct)
   * `small_input_untouched`            — n ≤ 1: nothing happens
 Local `std::(stable_)sort` and the per-thread `multiway_merge_base` (C05) are their specifications;
 offset vectors of exact splitting are assumed to satisfy the C08 specification.
 -/
 import TlxVerif.Proofs.C06Sampling
 import TlxVerif.Proofs.C07Phases
+import TlxVerif.Proofs.C06Refine
+import TlxVerif.Proofs.C07Final
 import TlxVerif.Proofs.C08Checker
 namespace TlxVerif.C06
 open TlxVerif.C08 (StrictWeak IsPartition)
@@ -113,9 +118,19 @@ theorem temporaries_ledger_balanced (n p : Nat) (hp : 1 ≤ p) :
 
 theorem small_input_untouched (P : Params) (input : List Elem) (h : input.length ≤ 1) :
     pmsort P input = .ok { out := input, copyWindows := [], mergeWindows := [], constructed := 0, destroyed := 0 } := by
-  unfold pmsort
-  simp [h]
-  rfl
+  rw [pmsort_unfold, if_pos h]
+
+/-- **End to end** (closes the former OPEN item `pmsort_refines_spec`): the executable model of
+`parallel_mergesort_base` — the function the driver runs — succeeds and leaves the stable sort of the input;
+every temporary object it constructs is destroyed; for n ≥ 2 the per-thread merge windows are adjacent and
+tile `[0, n)` and exactly n temporaries are constructed.  All inputs whose elements carry their positions,
+threads ≥ 1, oversampling ≥ 1, exact and sampling splitting; with the C08 correctness theorem no assumption
+about `multisequence_partition` is left. -/
+theorem model_refines_spec (P : Params) (hlt : StrictWeak P.lt) (input : List Elem) (hpos : input.Pairwise posLt)
+    (hthr : 1 ≤ P.threads) (hosf : 1 ≤ P.osf) :
+    ∃ r, pmsort P input = .ok r ∧ r.out = sortStable P.lt input ∧ r.constructed = r.destroyed ∧
+      (2 ≤ input.length → C07.TileFrom 0 input.length r.mergeWindows ∧ r.constructed = input.length) :=
+  pmsort_correct P hlt input hpos hthr hosf
 
 /-! ### non-vacuity: 7 elements, 3 threads, two keys -/
 
@@ -144,9 +159,20 @@ example : ((chunkRows ((slicesBy exInput (startsOf exInput.length 3)).map (sortS
 example : sortStable exLt exInput =
     [⟨1, 0, 1⟩, ⟨1, 0, 3⟩, ⟨1, 0, 6⟩, ⟨2, 0, 2⟩, ⟨2, 0, 5⟩, ⟨3, 0, 0⟩, ⟨3, 0, 4⟩] := by decide
 
--- OPEN: pmsort_refines_spec — `pmsort P input = .ok r` with `r.out = sortStable lt input` for all inputs:
---   the model's glue (building `pieces` from `partitionM` / `lowerBound` results in `for` loops, `assemble`) is
---   not proved equal to `chunkRows`; it is exercised by the correspondence.  Also needs the C08 OPEN item.
+example : ∃ r, pmsort { lt := exLt, stable := true, exact := true, threads := 3, osf := 2 } exInput = .ok r ∧
+    r.out = sortStable exLt exInput ∧ r.constructed = r.destroyed :=
+  let ⟨r, h1, h2, h3, _⟩ := model_refines_spec { lt := exLt, stable := true, exact := true, threads := 3, osf := 2 }
+    exLt_strictWeak exInput exInput_pos (by decide) (by decide)
+  ⟨r, h1, h2, h3⟩
+
+example : ∃ r, pmsort { lt := exLt, stable := true, exact := false, threads := 4, osf := 3 } exInput = .ok r ∧
+    r.out = sortStable exLt exInput :=
+  let ⟨r, h1, h2, _⟩ := model_refines_spec { lt := exLt, stable := true, exact := false, threads := 4, osf := 3 }
+    exLt_strictWeak exInput exInput_pos (by decide) (by decide)
+  ⟨r, h1, h2⟩
+
+-- (the former OPEN item pmsort_refines_spec is closed by `model_refines_spec`; the C08 correctness theorem
+--  `C08.msp_correct_lists` discharges the hypothesis about multisequence_partition.)
 -- OPEN: schedule_independence — `merge_back_all_schedules` proves it per phase for the asserted window
 --   footprints; that the phases are separated (ThreadBarrierMutex is a barrier, C11) and that the real code's
 --   accesses stay inside those footprints is checked by the harness (per-position writer / copier, counts)
